@@ -6,7 +6,7 @@ common.import_repo()
 from trie.smt import SparseMerkleTree, SparseMerkleProof  # noqa: E402
 
 ID = "C15"
-LEAN_IMPORTS = ["PyTrie.Props.C15", "PyTrie.Props.SmtInt"]
+LEAN_IMPORTS = ["PyTrie.Props.C15", "PyTrie.Props.SmtInt", "PyTrie.Props.NonVacuity"]
 THEOREMS = [
     "PyTrie.Props.C15.in_sync_root",
     "PyTrie.Props.C15.update_keeps_sync",
@@ -18,6 +18,9 @@ THEOREMS = [
     "PyTrie.Props.SmtInt.branch_point_is_first_diff",
     "PyTrie.Props.SmtInt.proof_update_agrees",
     "PyTrie.Props.SmtInt.bit_is_list_element",
+    "PyTrie.Props.NonVacuity.smt_inSync",
+    "PyTrie.Props.NonVacuity.smt_stream",
+    "PyTrie.Props.NonVacuity.smt_sufficient",
 ]
 RULE = ("key sizes 1, 2, 3, 32 (and others), blank / non-blank defaults; a tree with some prior writes, a SparseMerkleProof "
         "created from the tree's current value and branch of a tracked key (stored, default-valued or blank), then a stream of "
